@@ -95,7 +95,17 @@ def gen(rng, k):
         sc['keeps_dicts'] = True
         sc['sender_listens'] = True
         sc['recv_sends'] = dict(dtcs=[[rng.getrandbits(19), rng.getrandbits(5), rng.getrandbits(7)]], cycle=rng.choice([60000, 170000, 333000]))
+    if k % 7 == 5 and dll == 'j1939-21' and 2 <= n <= 12 and not sc.get('keeps_dicts'):
+        # the sending CA also broadcasts a long application message that is on the bus when one DM1 cycle falls due: that one
+        # DM1 may be refused (the transport is busy for this source), the cyclic DM1 goes on afterwards
+        sc['cycle'] = max(sc['cycle'], 400000)
+        cyc = sc['cycle']
+        sc['app_broadcast'] = dict(at=1000 + cyc * 2 - rng.choice([60000, 120000]), len=rng.choice([30, 60]))
+        sc['stop'] = 1000 + cyc * 5 + 1000
+        sc['horizon'] = sc['stop'] + 3 * cyc + transfer + 500000
     fam = k % 6
+    if sc.get('app_broadcast'):
+        fam = -1
     if fam == 0 and n >= 2 and dll == 'j1939-21' and k % 12 == 0:
         # one frame of a multi-packet DM1 is lost on the bus, and the next DM1 is announced before the receivers have given the
         # incomplete one up (cycle below T1 = 750 ms after the transfer): what arrives later is still what ONE call supplied
@@ -230,6 +240,9 @@ def runner(sc):
             sim.at(sc['stop'] + 400000, lambda: dmA.stop_send(app.dm1_data2 if sc.get('bound_methods') else src2))
         if sc.get('stop_mode') not in ('timer', 'self'):
             sim.at(sc['stop'], stop)
+        if sc.get('app_broadcast'):
+            ab = sc['app_broadcast']
+            sim.at(ab['at'], lambda: ca.send_pgn(0, 0xFE, 0x10, 6, [(7 * i) & 0xFF for i in range(ab['len'])]))
         sim.run_until(sc['horizon'])
         res.trace = list(sim.trace)
         res.got = got
@@ -290,6 +303,16 @@ def oracle(sc, res):
     exp_cycles = (sc['stop'] - 1000) // sc['cycle']
     if len(before) != exp_cycles:
         v.append(dict(kind='dm1-cycles', expected=exp_cycles, observed=len(before)))
+    if sc.get('app_broadcast'):
+        # one cycle may have met the busy transport; every other one arrives
+        for i in range(sc['nrecv']):
+            n_i = sum(1 for g in res.got if g[1] == i and g[2] == 0x20)
+            if n_i < len(before) - 1:
+                v.append(dict(kind='dm1-deliveries-after-an-own-broadcast', receiver=i, cycles=len(before), observed=n_i))
+        for j, js in enumerate(res.job):
+            if js != 'alive':
+                v.append(dict(kind='job-thread-' + js, stack=j))
+        return v
     per = {}
     first = [e[2] for e in res.events if e[0] == 'call']
     for g in res.got:
